@@ -193,6 +193,82 @@ def job_b(j):
     return st, fix
 
 
+# ------------------------------------------------------------------ (d) overlapping calls on one inverter object
+
+def run_d(cfg, history, outcomes, offsets):
+    """Sequential history, then len(outcomes) callers overlapping on the same Inverter object (the protocol lock
+    serialises their requests).  The count reported by every failure must equal the number of failures since the last
+    success in COMPLETION order."""
+    import asyncio
+    s = Session(cfg, family='ET')
+    for name in history:
+        s.peer.forced = h_script(cfg, name)
+        s.call(op_call(s.inv, 'read_sensor'))
+        s.peer.forced = []
+        s.drain()
+    base = s.inv._consecutive_failures_count
+    script = []
+    for o in outcomes:
+        script += h_script(cfg, o)
+    s.peer.forced = script
+    done = []
+
+    async def caller(i):
+        if offsets[i]:
+            await asyncio.sleep(offsets[i])
+        try:
+            await s.inv.read_sensor(f'modbus-{100 + i}')
+            done.append((i, 'ok', None))
+        except BaseException as e:  # noqa: BLE001
+            done.append((i, type(e).__name__, getattr(e, 'consecutive_failures_count', None)))
+
+    async def main():
+        await asyncio.gather(*[caller(i) for i in range(len(outcomes))])
+    s.kern.ntx = 0
+    st, _ = s.loop.run(main())
+    vio = []
+    if st == 'hang':
+        return [('terminates', 'overlapping calls hang')]
+    model = base
+    for i, kind, cnt in done:
+        if kind == 'ok':
+            model = 0
+        elif kind == 'RequestFailedException':
+            model += 1
+            if cnt != model:
+                vio.append(('consecutive-failures-count/overlapping-calls',
+                            f'caller {i} (completion order {[d[0] for d in done]}): reported {cnt}, {model} failures since last success'))
+        elif kind != 'RequestRejectedException':
+            vio.append(('only-InverterError', kind))
+    return vio
+
+
+def job_d(j):
+    cfg, = j
+    out = {}
+    n = 0
+    import itertools
+    kinds = ('success', 'silent', 'garbage', 'errno')
+    for history in ((), ('silent',), ('silent', 'silent'), ('success',)):
+        for k in (2, 3):
+            for outcomes in itertools.product(kinds, repeat=k):
+                for offsets in ((0,) * k, (0, .3) + (0,) * (k - 2), (0, 1.2) + (.4,) * (k - 2)):
+                    vio = run_d(cfg, history, outcomes, offsets)
+                    n += 1
+                    for clause, cause in vio:
+                        key = f"{clause}/{cfg['transport']}/ka={int(cfg['ka'])}"
+                        out.setdefault(key, []).append(dict(key=key, clause=clause,
+                                                            replay=dict(part='d', cfg=cfg, history=list(history),
+                                                                        outcomes=list(outcomes), offsets=list(offsets)),
+                                                            detail=dict(cause=cause, history=list(history), outcomes=list(outcomes))))
+    res = []
+    for key, lst in out.items():
+        lst.sort(key=lambda v: (len(v['replay']['history']), len(v['replay']['outcomes'])))
+        lst[0]['n'] = len(lst)
+        res.append(lst[0])
+    return n, res
+
+
 # ------------------------------------------------------------------ (c) identification payloads
 
 CLASSES = collections.OrderedDict([
@@ -342,6 +418,12 @@ def run(tier, seed, rep):
         total.merge(st)
         fixes += bool(fix)
         nb += st.executions
+    # (d)
+    nd = 0
+    for n, res in pmap(job_d, [(dict(transport=tr, ka=ka, T=1, R=R),) for tr in ('udp', 'tcp') for ka in (False, True)
+                               for R in ((0, 1) if tier == 'thorough' else (0,))]):
+        nd += n
+        total.violations.extend(res)
     # (c)
     cases = list(id_cases(tier))
     chunks = [cases[i::32] for i in range(32)]
@@ -355,7 +437,7 @@ def run(tier, seed, rep):
     rep.add_many(total.violations)
     cov = dict(states=len(total.states), transitions=len(total.edges), executions=total.executions + nc,
                traces_validated_against_impl=total.executions + nc,
-               fault_script_executions=total.executions - nb, counter_histories=nb,
+               fault_script_executions=total.executions - nb, counter_histories=nb, overlapping_call_cases=nd,
                counter_fixpoint_reached_in=f'{fixes}/{len(jb)} configurations (depth bound {depth})',
                identification_payloads=nc, identification_outcomes={str(k): v for k, v in sorted(occ.items())},
                distinct_outcome_classes=len(total.outcomes),
@@ -376,6 +458,9 @@ def replay(r):
         obs = run_a(r['cfg'], Ctx(r['choices']), r['letters'], r['conn'])
         return dict(script=obs.letters, result=[str(x) for x in obs.result[:4]], unhandled=obs.unhandled,
                     violations=judge(obs))
+    if r['part'] == 'd':
+        v = run_d(r['cfg'], tuple(r['history']), tuple(r['outcomes']), tuple(r['offsets']))
+        return dict(violations=v)
     if r['part'] == 'b':
         v, _, _ = run_b(r['cfg'], r['history'])
         return dict(history=r['history'], violations=v)
